@@ -123,6 +123,15 @@ CLAIMED['C09'] = dict(
     note='Trusted: z3 for path feasibility; the graph search itself is executed per path, not encoded (no C++ symbolic executor available) - this is bounded exhaustive path enumeration driven by the solver; stubbed solve returns non-zero demand/head for connected junctions.',
     ref='DESIGN.md section 4, C09')
 
+CLAIMED['C16'] = dict(
+    engine='symx+ctrlplane',
+    technique='symbolic execution of the real run_sim loop under a symbolic fault schedule (failing solve index a symbolic Int; backup solver, its success and convergence_error forked; symbolic time-control instant; trial-limit storm); every feasible path explored; SMT (z3 LIA) decides time-ordering, report-grid and prefix-equality claims',
+    text='On every feasible path: run_sim returns or raises RuntimeError only; a failed solve (primary and backup) raises with convergence_error=True, otherwise sets error_code, warns and stops; no failure => '
+         'error_code None and the run reaches the duration; recorded times strictly increase and lie on the report grid; every element has one entry per recorded time and the real get_results builds tables with one '
+         'column per element sharing the index; the records before the failure equal, term for term, those of the fault-free run. Includes exceeding the trial limit through flipping post-solve controls.',
+    note='Trusted: z3; the numeric kernel is a stub, so NewtonSolver termination (maxiter/bt_maxiter/time_limit) and finiteness of values are outside; one template; <= 4 hydraulic steps.',
+    ref='DESIGN.md section 4, C16')
+
 NOT_APPLICABLE = {
     'C03': 'compares the numerical output of the closed EPANET shared library with a compiled Newton/SuperLU iteration; neither can be executed '
            'symbolically with the tools on this image and a contract standing in for EPANET would be the property itself (DESIGN.md section 5)',
